@@ -379,8 +379,8 @@ def check_c12(tier):
 # C13 (combinators)
 # ---------------------------------------------------------------------------
 
-C13_LEN = {"quick": 3, "thorough": 4}
-C13_SIM = {"quick": (400, 7), "thorough": (6000, 9)}
+C13_LEN = {"quick": 3, "thorough": 3}
+C13_SIM = {"quick": (400, 7), "thorough": (4000, 8)}
 
 
 def check_c13(tier):
